@@ -1026,6 +1026,9 @@ func (c *Conn) handlePackets() (wasProcessed bool, _ error) {
 		if c.qlogger != nil && wire.IsLongHeaderPacket(p.data[0]) {
 			datagramID = qlog.CalculateDatagramID(p.data)
 		}
+		// Count the bytes of a datagram when it is received, not when it is processed:
+		// packets that had to wait for their keys are processed again later.
+		c.sentPacketHandler.ReceivedBytes(p.Size(), p.rcvTime)
 		processed, err := c.handleOnePacket(p, datagramID)
 		if err != nil {
 			return false, err
@@ -1056,8 +1059,6 @@ func (c *Conn) handlePackets() (wasProcessed bool, _ error) {
 }
 
 func (c *Conn) handleOnePacket(rp receivedPacket, datagramID qlog.DatagramID) (wasProcessed bool, _ error) {
-	c.sentPacketHandler.ReceivedBytes(rp.Size(), rp.rcvTime)
-
 	if wire.IsVersionNegotiationPacket(rp.data) {
 		return false, c.handleVersionNegotiationPacket(rp)
 	}
